@@ -75,3 +75,8 @@ def load_value(v):
     data = json.loads(v)
     meta = {k: v for k, v in data['meta'].items() if not k.startswith('__') and k not in META_EXCLUDE}
     return data['value'], data['id'], data['errors'], meta
+
+
+def is_value_packet(s):
+    data = json.loads(s)
+    return isinstance(data, dict) and 'value' in data
